@@ -286,7 +286,10 @@ def evaluate(spec):
                              f"{u.kind} {u.origin} at {si}+{e.pos} is not the last instruction of its block", u.kind)
                 continue
             nxt = insns[k + 1] if k + 1 < len(insns) else None
-            code_follows = nxt is not None and nxt.unit.kind != "data"
+            # (instructions of a patch spliced into a data block are data as
+            # far as the CFG clauses go)
+            code_follows = nxt is not None and nxt.unit.kind != "data" and not (
+                nxt.unit.origin[0] == "patch" and not case.blocks[case_edit_block[nxt.unit.origin[1]]].code)
             edges = list(blk.outgoing_edges)
             by_type = {}
             for ed in edges:
